@@ -39,6 +39,24 @@ ASSUMPTIONS = ["exceptions.strict_mode is True (the default)",
                "single limit stands for that single value (ODX 7.3.6.6.1)",
                "the thresholds 1e-10 of the code are the rational 1/10^10 in the model"]
 
+# --- tie of kind (1) (task W15): Gen/CompuLimit.lean is regenerated from Limit.complies_to_upper / complies_to_lower of the current source
+# by the Python->Lean translator and proved equal to the hand-written Limit.compliesUpper / compliesLower (Proofs/CompuLimitGenEq.lean)
+LEAN_TARGETS = LEAN_TARGETS + ["OdxVerif.Props.C07Gen"]
+THEOREMS = THEOREMS + [P + t for t in ["gen_compliesUpper_eq", "gen_compliesLower_eq", "gen_complies_ok_iff", "C07_gen_limits_tie", "C07_gen_limits"]]
+TRUSTED = TRUSTED + ["translator harness/extract/py2lean.py + primitives lean/OdxVerif/Model/PyRt.lean for Limit.complies_to_upper / complies_to_lower "
+                     "(self._value / self.interval_type = the fields of the model's Limit, IntervalType members = constructors of IType; "
+                     "compare_odx_values is NOT translated: it stands for the model's compareOdx; odxraise is rendered for strict mode)"]
+
+
+def regen_compu_limit(ctx):
+    """Gen/CompuLimit.lean from the current source; Unsupported (source left the translator's subset) = broken obligation"""
+    import common
+    from extract import py2lean
+    py2lean.regenerate_limit(common.REPO, common.VERIF)
+
+
+GENERATORS = list(globals().get("GENERATORS", [])) + [regen_compu_limit]
+
 TOL = Fr(1, 2**40)
 
 
